@@ -352,7 +352,7 @@ def fam_async(w: World) -> None:
 
 FAMILIES = {'mocker.sync': fam_sync, 'mocker.async': fam_async}
 PLAN = {
-    'quick': {'mocker.sync': 5000, 'mocker.async': 3000},
+    'quick': {'mocker.sync': 35000, 'mocker.async': 21000},
     'thorough': {'mocker.sync': 50000, 'mocker.async': 30000},
 }
 CHUNK = 40
